@@ -1216,7 +1216,11 @@ class TmpStore:
         if not os.path.exists(targetpath):
             os.makedirs(targetpath)
 
-        targetname = self._getCleanFilename(oid, serial)
+        # The file is named after the position of the record just written:
+        # a name made of oid and serial would be shared by every savepoint
+        # of the transaction, later ones overwriting the data of earlier
+        # ones, which a rollback has to bring back.
+        targetname = self._getCleanFilename(oid, self.index[oid])
         rename_or_copy_blob(blobfilename, targetname, chmod=False)
 
     def loadBlob(self, oid, serial):
@@ -1226,7 +1230,10 @@ class TmpStore:
             raise Unsupported(
                 "Blobs are not supported by the underlying storage %r." %
                 self._storage)
-        filename = self._getCleanFilename(oid, serial)
+        pos = self.index.get(oid)
+        if pos is None:
+            return self._storage.loadBlob(oid, serial)
+        filename = self._getCleanFilename(oid, pos)
         if not os.path.exists(filename):
             return self._storage.loadBlob(oid, serial)
         return filename
@@ -1246,11 +1253,10 @@ class TmpStore:
             self._blob_dir = blob_dir
         return blob_dir
 
-    def _getCleanFilename(self, oid, tid):
+    def _getCleanFilename(self, oid, pos):
         return os.path.join(
             self._getBlobPath(),
-            "{}-{}{}".format(utils.oid_repr(oid), utils.tid_repr(tid),
-                             SAVEPOINT_SUFFIX)
+            "{}-{}{}".format(utils.oid_repr(oid), pos, SAVEPOINT_SUFFIX)
         )
 
     def temporaryDirectory(self):
